@@ -131,7 +131,7 @@ func runC14(rc *RunCtx) {
 		rc.Cov.Sample(map[string]interface{}{"history_tail": e.history[max(0, len(e.history)-12):]})
 	}
 	// natural failures of the real keepers and late validation failures after the burn
-	for vi, variant := range []string{"ftf-paused", "module-blacklisted", "recipient-blacklisted", "allowance-exhausted", "send-side-paused", "max-body-131", "zero-messenger", "caller-31-bytes", "poor-depositor", "short-messenger", "long-messenger", "zero-amount-burn-message", "mint-to-module-account"} {
+	for vi, variant := range []string{"ftf-paused", "module-blacklisted", "recipient-blacklisted", "allowance-exhausted", "send-side-paused", "max-body-131", "zero-messenger", "caller-31-bytes", "poor-depositor", "short-messenger", "long-messenger", "zero-amount-burn-message", "mint-to-module-account", "recipient-blocked-by-bank"} {
 		if vi%rc.NShards != rc.Shard {
 			continue
 		}
@@ -145,6 +145,8 @@ func runC14(rc *RunCtx) {
 				cfg.Blacklisted = [][]byte{AcctBytes(1)}
 			case "allowance-exhausted":
 				cfg.Allowance = big.NewInt(5)
+			case "recipient-blocked-by-bank": // the bank's blocked-address list (module accounts on a production chain)
+				cfg.BankBlocked = []string{Acct(1), moduleBech()}
 			case "send-side-paused":
 				gs.SendingAndReceivingMessagesPaused.Paused = true
 			case "max-body-131":
